@@ -6,7 +6,9 @@ from . import common as C
 
 CLAUSES = {
     "C08": {"build", "declared", "coverage", "cov_contains", "lookup", "stream_sem", "stream"},
-    "C09": {"build", "build_error", "coverage", "cov_contains", "lookup", "stream_sem", "stream"},
+    # (C09 does not prescribe the advertised coverage of a filter, only C03's containment: an exact-formula mismatch is an
+    #  observation, not a violation)
+    "C09": {"build", "build_error", "cov_contains", "lookup", "stream_sem", "stream"},
     "C03": {"cov_contains"},               # C03 over pipeline operations: returned tiles lie inside the advertised coverage
     "C02": {"stream_sem", "stream"},       # C02 over pipeline operations: the stream clauses only
 }
@@ -54,6 +56,10 @@ def run_pipes(prop, tier, seed, replay, stages, rule, nontrivial, run=None, fini
     run.add_tlc(v)
     for (line, fl) in v.fails:
         for cl in fl["clauses"]:
+            if cl == "coverage" and prop == "C09":
+                run.observation("coverage_formula", {"what": "the advertised coverage differs from source coverage /\\ filter box "
+                                                     "(allowed by C09 / C03 as long as it contains every returned tile)", "vpl": fl["case"]["vpl"], "cov": fl["case"].get("cov")})
+                continue
             if cl not in CLAUSES[prop]:
                 continue
             c = fl["case"]
